@@ -150,9 +150,20 @@ func (gr GithubReporter) List(ctx context.Context, _ any) ([]ExistingComment, er
 	defer cancel()
 
 	slog.Debug("Getting the list of pull request comments", slog.Int("pr", gr.prNum))
-	existing, _, err := gr.client.PullRequests.ListComments(reqCtx, gr.owner, gr.repo, gr.prNum, nil)
-	if err != nil {
-		return nil, fmt.Errorf("failed to list pull request reviews: %w", err)
+	// The API is paginated (30 comments per page by default), fetch all pages
+	// or comments beyond the first one would be created again on every run.
+	var existing []*github.PullRequestComment
+	opt := &github.PullRequestListCommentsOptions{ListOptions: github.ListOptions{PerPage: 100}}
+	for {
+		page, resp, err := gr.client.PullRequests.ListComments(reqCtx, gr.owner, gr.repo, gr.prNum, opt)
+		if err != nil {
+			return nil, fmt.Errorf("failed to list pull request reviews: %w", err)
+		}
+		existing = append(existing, page...)
+		if resp == nil || resp.NextPage == 0 {
+			break
+		}
+		opt.Page = resp.NextPage
 	}
 
 	comments := make([]ExistingComment, 0, len(existing))
